@@ -22,10 +22,26 @@ def ntt_obs(ctx, tdir, ns):
     return obs
 
 
+def byblock_obs(ctx, tdir):
+    """the block-by-block schedule that the library uses for n > CHANGE_MODE_N = 1024, executed end to end at small n with the threshold lowered
+    (front-end rewrite: the #define is put under #ifndef; nothing else differs from the library's code)"""
+    obs = []
+    for (n, cm) in (((16, 4), (32, 8)) if ctx.quick else ((16, 4), (32, 4), (32, 8), (64, 16))):
+        for d in (0, 1, 2):
+            obs.append(AlgOb("%s-byblock/n=%d/CHANGE_MODE_N=%d" % (DN[d], n, cm), "ntt.c", "h_ntt", "vf.alg.q120:check_ntt",
+                             params={"n": n, "dir": d, "primes": c10.PRIMES30, "omegas": OMEGAS30}, defs={"N": n, "DIR": d}, libs=LIBS, libdefs=("CHANGE_MODE_N=%d" % cm,),
+                             unwind=max(4 * n + 8, 48), inc=[tdir], family="q120_%s_bb_avx2 (by-block schedule)" % DN[d], bit_flags=["--slice-formula"],
+                             timeout=900, mem_gb=16,
+                             desc="as the end-to-end obligations, with the level-by-level / block-by-block switch at %d instead of 1024: the by-block branch of the driver "
+                                  "(used by the library for n > 1024) computes the same evaluation map / inverse / identity and never wraps" % cm))
+    return obs
+
+
 def obligations(ctx):
     ns = [1, 2, 4, 8, 16, 32, 64] if ctx.quick else [1, 2, 4, 8, 16, 32, 64, 128, 256]
     tdir = core.tables_dir(ctx, (), ns)
     obs = ntt_obs(ctx, tdir, ns)
+    obs += byblock_obs(ctx, tdir)
     # module-level conversions used by ntt120_vec_znx_dft / idft (int64 -> residues, centered CRT lift, round trip on all of int64)
     obs += [o for o in c10.conv_obs(ctx, tdir) if any(x in o.name for x in ("b_from_znx64", "b_to_znx128", "znx64_to_b"))]
     # the module-level clause: NTT120 vec_znx_dft followed by vec_znx_idft / idft_tmp_a returns exactly the int64 input (N = 1 included)
@@ -47,7 +63,7 @@ def check(ctx, only=None, list_only=False):
     meta = {
         "functions_encoded": ["q120_ntt_bb_avx2", "q120_intt_bb_avx2", "ntt_iter", "ntt_iter_red", "intt_iter", "intt_iter_red", "ntt_iter_first", "ntt_iter_first_red",
                               "split_precompmul_si256", "modq_red (through the intrinsics shim)", "q120_b_from_znx64_simple", "q120_b_to_znx128_simple"],
-        "bounds": "end-to-end transforms n in {1,2,4,8,16,32,64} (thorough: 128, 256) on the level metadata and power tables dumped from the real "
+        "bounds": "NTT120 module round trip vec_znx_dft -> vec_znx_idft / idft_tmp_a for N in {1,2,4,8} (every int64 coefficient by sign class, sizes 1-2); end-to-end transforms n in {1,2,4,8,16,32,64} (thorough: 128, 256) on the level metadata and power tables dumped from the real "
                   "q120_new_{ntt,intt}_bb_precomp; all 4n lanes any 64-bit value; conversions on all of int64 (split by sign) and all 64-bit residues",
         "outside": "n > 64 (256): in particular the level-by-level -> block-by-block switch at n = 1024 is not executed; the convolution theorem is a "
                    "consequence of the evaluation-map structure and is not separately checked; module-level vec_znx_dft/idft size/stride handling is C08/C11/C18 territory",
